@@ -285,6 +285,31 @@ void run(size_t idx) {
 			NifFile cp(*m.nif);
 			m.bytes = saveNif(cp, false);
 		}
+		if (idx % 6 == 2) {
+			// faces the stored partitions do not know about: a face added after the partitions were built, and / or a second copy of
+			// an existing face (rotated); the LE file keeps the full triangle list in NiTriShapeData
+			bool changed = false;
+			for (auto s : m.nif->GetShapes()) {
+				if (!s->IsSkinned() || s->GetNumVertices() < 4) continue;
+				std::vector<Triangle> t;
+				s->GetTriangles(t);
+				if (t.empty() || t.size() > 60000) continue;
+				if (rng.coin()) { Triangle d = t[0]; d.rot(); t.push_back(Triangle(d.p2, d.p3, d.p1)); }
+				if (rng.coin()) {
+					uint16_t nv = s->GetNumVertices();
+					uint16_t a = (uint16_t)rng.below(nv), b = (uint16_t)((a + 1 + rng.below(nv - 1)) % nv), c = a;
+					while (c == a || c == b) c = (uint16_t)rng.below(nv);
+					t.push_back(Triangle(a, b, c));
+				}
+				s->SetTriangles(t);
+				changed = true;
+			}
+			if (changed) {
+				NifFile cp(*m.nif);
+				m.bytes = saveNif(cp, false);
+				m.desc += " [faces outside the stored partitions]";
+			}
+		}
 		if (idx % 9 == 4) {   // all-white vertex colours
 			for (auto s : m.nif->GetShapes()) { std::vector<Color4> c(s->GetNumVertices(), Color4(1, 1, 1, 1)); m.nif->SetColorsForShape(s, c); }
 			NifFile cp(*m.nif);
